@@ -35,6 +35,7 @@ const struct option longOpts[] = {
 */
 const char shortOpts[] = "edvVhni:o:k:m:";
 char fout[128];
+bool fout_fits = true;
 /*################################
   辅助函数
 ################################*/
@@ -119,7 +120,7 @@ bool parseOpts(char c, vpak_t *res)
         break;
     case 'i':
         res->fp = fopen(optarg, "rb");
-        sprintf(fout, "%s.wenc", optarg);
+        fout_fits = snprintf(fout, sizeof(fout), "%s.wenc", optarg) < (int)sizeof(fout);
         try
         {
             auto fileSize = std::filesystem::file_size(optarg);
@@ -223,6 +224,7 @@ u8_t *get_v_opt(int argc, char *argv[])
 {
     srand((unsigned)time(NULL));
     memset(fout, 0, sizeof(fout));
+    fout_fits = true;
     int option_index = 0;
     optind = 1;
     vpak_t *res = new vpak_t;
@@ -287,6 +289,12 @@ u8_t *get_v_opt(int argc, char *argv[])
         }
         if (res->out == NULL)
         {
+            if (!fout_fits)
+            {
+                strlog("Error :", "Input path too long for the default output file name, use -o");
+                delete res;
+                return NULL;
+            }
             strlog("Note :", "Using default output file name");
             res->out = fopen(fout, "wb+");
         }
